@@ -134,6 +134,32 @@ theorem C01_presieve_exact (L o b : Nat) (hL : L % 30 = 0) (hb : b < 8) :
       ∀ p, Nat.Prime p → 7 ≤ p → p ≤ 163 → ¬ p ∣ (L + 30 * o + PreSieve.offs.getD b 0) :=
   PreSieve.preSieve_bit_iff L o b hL hb
 
+/-- **C01 (sieve principle)** why pre-sieve + cross-off compute primality: a number n > 163 that has a bit in the sieve
+    (coprime to 30) and lies below the segment's upper bound H is prime iff no prime 7..163 divides
+    it (what `C01_presieve_exact` shows the pre-sieve computes) and no sieving prime p ∈ (163, √H]
+    crosses it off on its walk over the quotients q ≥ p coprime to 30 (EratSmall/EratMedium) resp.
+    210 (EratBig) — whichever algorithm each prime is routed to -/
+theorem C01_sieve_principle (M : Nat → Nat) (hM : ∀ p, M p = 30 ∨ M p = 210) (n H : Nat) (hn : 163 < n) (hnH : n ≤ H)
+    (hc : Nat.gcd n 30 = 1) :
+    n.Prime ↔ (∀ p, p.Prime → 7 ≤ p → p ≤ 163 → ¬ p ∣ n) ∧
+              (∀ p, p.Prime → 163 < p → p * p ≤ H → ¬ ClearedBy (M p) p n) :=
+  sieve_principle M hM n H hn hnH hc
+
+/-- **C01 (cross-off covers the segment)** once addSievingPrime has stored a sieving prime p for the segment starting at L,
+    the walk from the stored state reaches EVERY multiple p·x with x ≥ p coprime to the modulus
+    that lies above L + 6 — exactly the `ClearedBy` numbers of the sieve principle — and the state
+    reached denotes p·x, so the bit cleared at that step is the bit of p·x -/
+theorem C01_crossoff_covers_segment (stop p L : Nat) (hp : Nat.gcd (p % 30) 30 = 1) (hp0 : 0 < p) (hL : L % 30 = 0)
+    (hnw : L + 6 < U64) (hnw2 : p * (max p ((L + 6) / p + 1) + 210) < U64) (hstop : stop < U64) (s : SP) (x : Nat)
+    (hpx : p ≤ x) (hn : L + 6 < p * x) :
+    (addSievingPrime 30 8 Gen.wheel30Init stop p L = some s → Nat.gcd x 30 = 1 →
+      ∃ q1 j, Denotes 30 L s q1 ∧ (walk 30 j s q1).2 = x ∧ Denotes 30 L (walk 30 j s q1).1 x) ∧
+    (addSievingPrime 210 48 Gen.wheel210Init stop p L = some s → Nat.gcd x 210 = 1 →
+      ∃ q1 j, Denotes 210 L s q1 ∧ (walk 210 j s q1).2 = x ∧ Denotes 210 L (walk 210 j s q1).1 x) :=
+  ⟨fun h hg => crossoff_covers30 stop p L hp hp0 hL hnw
+      (Nat.lt_of_le_of_lt (Nat.mul_le_mul_left p (by omega)) hnw2) hstop s h x hpx hg hn,
+   fun h hg => crossoff_covers210 stop p L hp hp0 hL hnw hnw2 hstop s h x hpx hg hn⟩
+
 /-- **C01 (source lock)** the model of Wheel::addSievingPrime was written for exactly this text (regenerated,
     whitespace-normalised, on every run) -/
 theorem C01_wheel_source : Gen.addSievingPrimeText =
